@@ -16,7 +16,9 @@ IMPORTS = "C14.Model"
 SHARD = 40
 RULE = ("kinds tabular (N,F) / time series (N,T,W) / image (N,H,W,C); explanations without channel axis, with 1 "
         "channel, with C or another number of channels (averaged); Deletion and Insertion; steps in {-1,1,2,3,F,F+4,"
-        "random up to F+6}; max_percentage in {1/4,3/8,1/2,3/4,1} plus guarded non-dyadic {0.3,0.7,0.9}; constant "
+        "random up to F+6}; for 35% of the cases the implementation receives a strictly increasing transformation of the "
+        "explanations (cube, affine, arctan, exp; affine only with a channel axis) while the model keeps the original; "
+        "max_percentage in {1/4,3/8,1/2,3/4,1} plus guarded non-dyadic {0.3,0.7,0.9}; constant "
         "baselines and plain-function baselines (x/2, 1/4-x, roll over the batch axis, constant array); F-quad score "
         "with cross terms offered as NumPy callable or tf.Module; real-valued targets; batch sizes biased to "
         "{1,2,N-1,N,N+1,None}; explanations have pairwise distinct (channel-mean) values per sample so the ranking is "
@@ -43,6 +45,15 @@ Definition c14_check (exv exa : bool) (d : list (nat * Qc)) (a : Qc) (keys : lis
   list_eqb Nat.eqb (map fst d) keys && c14_cmpl exv (map snd d) vals &&
   match auc with None => true | Some x => c14_cmpl exa [a] [x] end.
 """
+
+# strictly increasing transformations applied to the explanations handed to the IMPLEMENTATION only (the Coq model gets
+# the untransformed ones): by C14_ranking_only the result must not move.  Values stay pairwise distinct in float32.
+TRANSFORMS = {
+    "cube": lambda e: e * e * e,
+    "affine": lambda e: np.float32(3.0) * e + np.float32(1.0),
+    "arctan": lambda e: np.arctan(e),
+    "expm": lambda e: np.exp(e / np.float32(4.0)),
+}
 
 BASE_FUNS = {
     "half": lambda x: x * np.float32(0.5),
@@ -106,13 +117,13 @@ def gen_case(rng, tier):
     big = tier == "thorough"
     kind = rng.choice(["tab", "ts", "img", "img"])
     if kind == "tab":
-        shape = [rng.randint(1, 16 if big else 12)]
+        shape = [rng.randint(1, 30 if big else 24)]
         ec = None
     elif kind == "ts":
-        shape = [rng.randint(1, 6 if big else 5), rng.randint(1, 5 if big else 4)]
+        shape = [rng.randint(1, 6), rng.randint(1, 5)]
         ec = rng.choice([None, None, None, None, 1, 2])
     else:
-        shape = [rng.randint(1, 5 if big else 4), rng.randint(1, 5 if big else 4), rng.choice([1, 2, 3])]
+        shape = [rng.randint(1, 5), rng.randint(1, 5), rng.choice([1, 2, 3])]
         ec = rng.choice([None, None, 1, shape[2], shape[2], rng.choice([2, 3, 4])])
     case = dict(kind=kind, shape=shape, echan=ec)
     F = n_feat(case)
@@ -137,6 +148,10 @@ def gen_case(rng, tier):
     case["xs"] = [fam.dyadic(rng, dim) for _ in range(n)]
     case["ts"] = fam.gen_targets(rng, n, ncls)
     case["es"] = [gen_expl(rng, F, ec) for _ in range(n)]
+    # monotone transformation of the explanations (no channel axis: the code ranks channel MEANS, which only an affine
+    # map preserves — with a channel axis only the affine one is used)
+    r = rng.random()
+    case["transform"] = None if r < 0.65 else (rng.choice(sorted(TRANSFORMS)) if ec is None else "affine")
     return case
 
 
@@ -161,6 +176,14 @@ def fixed_cases():
                 c["ts"] = fam.gen_targets(rng, 4, 2)
                 c["es"] = [gen_expl(rng, F, ec) for _ in range(4)]
                 out.append(c)
+    # the documented float64 artefact of np.linspace: 30 features, steps=22 -> step 11 is 14, not floor(11*30/22)=15
+    # (guarded: skipped and counted)
+    c = dict(kind="tab", shape=[30], echan=None, mode="deletion", steps=22, pct=1.0, bs=2, baseline=dict(const=0.0),
+             model="numpy", params=fam.gen_fquad(rng, 1, 30), xs=[fam.dyadic(rng, 30) for _ in range(2)],
+             ts=fam.gen_targets(rng, 2, 1), es=[gen_expl(rng, 30, None) for _ in range(2)])
+    out.append(c)
+    for c in out:
+        c["transform"] = None
     return out
 
 
@@ -196,7 +219,8 @@ def distribution(cases):
                 max_nb=core.hist(exact_max_nb(c) for c in cases),
                 baseline=core.hist(next(iter(c["baseline"].items()))[1] for c in cases),
                 batch_class=core.hist(bclass(c) for c in cases), remainder_batch=core.hist(n_batches(c)[1] != 0 for c in cases),
-                model=core.hist(c["model"] for c in cases), guarded=core.hist(guard(c) for c in cases))
+                model=core.hist(c["model"] for c in cases), transform=core.hist(c.get("transform") for c in cases),
+                guarded=core.hist(guard(c) for c in cases))
 
 
 # ----------------------------------------------------------------------------- implementation driver
@@ -209,6 +233,18 @@ def arrays(case):
     eshape = fshape if case["echan"] is None else fshape + [case["echan"]]
     es = np.array(case["es"], dtype=np.float32).reshape([n] + eshape)
     return xs, ts, es
+
+
+def impl_explanations(case, es):
+    tr = case.get("transform")
+    if tr is None:
+        return es
+    out = np.asarray(TRANSFORMS[tr](es), dtype=np.float32)
+    flat = out.reshape(len(out), -1) if case["echan"] is None else out.mean(-1).reshape(len(out), -1)
+    for row in flat:
+        if len(set(row.tolist())) != len(row):
+            raise core.HarnessError("transformed explanations are not pairwise distinct")
+    return out
 
 
 def baseline_values(case, xs):
@@ -230,6 +266,7 @@ def run_impl(case):
     cls = Deletion if case["mode"] == "deletion" else Insertion
     metric = cls(model, xs, ts, batch_size=case["bs"], baseline_mode=baseline, steps=case["steps"],
                  max_percentage_perturbed=case["pct"])
+    es = impl_explanations(case, es)
     d = metric.detailed_evaluate(es)
     keys = [int(k) for k in d.keys()]
     vals = [float(v) for v in d.values()]
@@ -376,6 +413,10 @@ def shrink(case):
     if "fun" in case["baseline"]:
         c = copy.deepcopy(case)
         c["baseline"] = dict(const=0.0)
+        yield c
+    if case.get("transform") is not None:
+        c = copy.deepcopy(case)
+        c["transform"] = None
         yield c
     if case["pct"] != 1.0:
         c = copy.deepcopy(case)
